@@ -27,6 +27,9 @@ const (
 //	               of direction Dir (the sender "stops at that boundary")
 //	Kind "corrupt" message Index of direction Dir is decoded, changed by
 //	               mutation Mut/A and re-encoded; everything else is verbatim
+//	Kind "stall"   message Index of direction Dir is withheld and NOTHING is
+//	               closed: the other side neither gets an answer nor an end of
+//	               stream until the harness calls Release
 //	Kind "advance" not a fault of the exchange: while message Index of
 //	               direction Dir is in flight the host's chain grows by A
 //	               blocks (the message is then delivered unchanged)
@@ -94,6 +97,8 @@ type MITM struct {
 	// Hook is called for Kind "advance" while the message is held back.
 	Hook func()
 
+	stallOnce sync.Once
+	stallCh   chan struct{}
 	wg        sync.WaitGroup
 	mu        sync.Mutex
 	Seen      [2]int // messages fully forwarded per direction
@@ -106,6 +111,28 @@ func (m *MITM) note(f func()) {
 	m.mu.Lock()
 	f()
 	m.mu.Unlock()
+}
+
+// Release ends a stall (the withheld message is dropped and the stream closed).
+func (m *MITM) Release() {
+	m.stallOnce.Do(func() {
+		m.mu.Lock()
+		if m.stallCh == nil {
+			m.stallCh = make(chan struct{})
+		}
+		ch := m.stallCh
+		m.mu.Unlock()
+		close(ch)
+	})
+}
+
+func (m *MITM) stallChan() chan struct{} {
+	m.mu.Lock()
+	defer m.mu.Unlock()
+	if m.stallCh == nil {
+		m.stallCh = make(chan struct{})
+	}
+	return m.stallCh
 }
 
 // Wait blocks until both directions of every interposed stream have ended
@@ -123,7 +150,7 @@ func (m *MITM) Status() (seen [2]int, applied bool, hostErr, harness string) {
 // n == stream; other streams pass untouched.
 func (m *MITM) Interpose(stream int) func(n int, client, server net.Conn) (net.Conn, net.Conn) {
 	return func(n int, client, server net.Conn) (net.Conn, net.Conn) {
-		if n != stream || (m.Fault.Kind != "cut" && m.Fault.Kind != "corrupt" && m.Fault.Kind != "advance") {
+		if n != stream || (m.Fault.Kind != "cut" && m.Fault.Kind != "corrupt" && m.Fault.Kind != "advance" && m.Fault.Kind != "stall") {
 			return client, server
 		}
 		// client <-> mc | ms <-> server
@@ -171,6 +198,10 @@ func (m *MITM) pump(dir int, src, dst net.Conn, closeAll func()) {
 		if idx == m.Fault.Index {
 			m.note(func() { m.Applied = true })
 			if m.Fault.Kind == "cut" {
+				return
+			}
+			if m.Fault.Kind == "stall" {
+				<-m.stallChan()
 				return
 			}
 			if m.Fault.Kind == "advance" {
